@@ -648,12 +648,12 @@ func (p *proxyLogListener) SubscribeOnLogMessage() (func(), chan LogMessage, err
 // GetVerbosity updates the property value
 func (p *proxyLogListener) GetVerbosity() (ret LogLevel, err error) {
 	name := value.String("verbosity")
-	value, err := p.Property(name)
+	propValue, err := p.Property(name)
 	if err != nil {
 		return ret, fmt.Errorf("get property: %s", err)
 	}
 	var buf bytes.Buffer
-	err = value.Write(&buf)
+	err = propValue.Write(&buf)
 	if err != nil {
 		return ret, fmt.Errorf("read response: %s", err)
 	}
@@ -718,12 +718,12 @@ func (p *proxyLogListener) SubscribeVerbosity() (func(), chan LogLevel, error) {
 // GetFilters updates the property value
 func (p *proxyLogListener) GetFilters() (ret map[string]int32, err error) {
 	name := value.String("filters")
-	value, err := p.Property(name)
+	propValue, err := p.Property(name)
 	if err != nil {
 		return ret, fmt.Errorf("get property: %s", err)
 	}
 	var buf bytes.Buffer
-	err = value.Write(&buf)
+	err = propValue.Write(&buf)
 	if err != nil {
 		return ret, fmt.Errorf("read response: %s", err)
 	}
